@@ -95,6 +95,18 @@ def log_acceptance(kind: str, ctx, it: dict, crit=None) -> tuple[float | None, d
     return None, det
 
 
+def degenerate_cell(ctx) -> bool:
+    """True when the current or the remembered cell is numerically singular / collapsed / exploded."""
+    try:
+        for c in (np.asarray(ctx.atoms.cell.array, dtype=float), np.asarray(ctx.last_cell, dtype=float)):
+            v = abs(np.linalg.det(c))
+            if not np.isfinite(v) or v < 1e-6 or v > 1e12 or np.linalg.cond(c) > 1e8:
+                return True
+    except Exception:  # noqa: BLE001
+        return True
+    return False
+
+
 def make_wrapper(rec: Rec, kind: str, orig, is_static: bool):
     def evaluate(*args, **kw):
         ctx = args[0] if is_static else args[1]
@@ -109,6 +121,9 @@ def make_wrapper(rec: Rec, kind: str, orig, is_static: bool):
         try:
             out = orig(*args, **kw)
         except Exception as ex:  # noqa: BLE001
+            if kind in ("isobaric", "isotension") and degenerate_cell(ctx):
+                rec.count("degenerate_cell_not_judged")  # outside the statement's domain (positive, finite volumes)
+                raise
             try:
                 logA, det = log_acceptance(kind, ctx, it, crit)
             except Exception:  # noqa: BLE001
@@ -121,6 +136,9 @@ def make_wrapper(rec: Rec, kind: str, orig, is_static: bool):
             if kind == "grand" and decision and det.get("dN") in (1, -1):
                 it["N"] = it["N"] + det["dN"]
             return decision
+        if kind in ("isobaric", "isotension") and degenerate_cell(ctx):
+            rec.count("degenerate_cell_not_judged")
+            return out
         try:
             logA, det = log_acceptance(kind, ctx, it, crit)
         except Exception as ex:  # noqa: BLE001
